@@ -34,7 +34,8 @@ class LieProp:
             self.props_files = list(props_files) \
                 + (['SmoothProps/SrcTie.lean'] if pid in ('C02', 'C04', 'C05') else []) \
                 + (['SmoothProps/SrcTieImpl.lean'] if pid == 'C01' else []) \
-                + [f'SmoothProps/SrcTieImpl{pid}.lean']
+                + [f'SmoothProps/SrcTieImpl{pid}.lean'] \
+                + (['SmoothProps/SrcTieBundle.lean'] if pid in ('C02', 'C05') else [])   # BundleImpl (tools/gen_bundle.py)
         self.props_module = 'SmoothProps.' + pid + ('All' if agg else '')
         self.lean_targets = [self.props_module]
         self.audit_fn = audit_fn
